@@ -6,12 +6,9 @@
    Model: Lattice/UF.v (find with its two loops, the pure-cycle guard and path compression
    through Cell as state passing; union, same, merge, partial_cmp, eq, is_bot, atomize).
 
-   Not proved (would complete the picture): LatLaws (C01-C03) for the union-find ops record via
-   OrdLaws with le = partition refinement -- merge_is_join below gives the join and the changed
-   flag, the partial_cmp / eq / is_bot obligations and an executable wf (forest check) are
-   missing; termination of find on pure cycles of EVERY length (only the repo's test_malformed
-   instances are proved, by computation). *)
-From HV Require Import Lattice.Model Lattice.UF Lattice.PUF.
+   uf_ops (UF.v) packs merge / partial_cmp / eq / is_bot into a LatOps record with the executable
+   forest check as wf; C04_uf_laws gives C01-C03 for it. *)
+From HV Require Import Lattice.Model Lattice.Ord Lattice.UF Lattice.PUF.
 
 (* every value reachable from Default by unions, merges of other reachable values and the
    path-compressing queries (same / partial_cmp / eq / is_bot): all operations terminate with the
@@ -66,8 +63,42 @@ Theorem C04_uf_find_rho_diverges_refuted :
 Proof. exact find_rho_diverges_refuted. Qed.
 Print Assumptions C04_uf_find_rho_diverges_refuted.
 
-(* pure cycles are not forests either, yet find terminates on them (loop guard): exactly the
-   two maps of the repo's test_malformed; cycles of arbitrary length are not proved *)
+(* union-find is a lattice: merge is a least upper bound for partition refinement, the changed
+   flag, partial_cmp, ==, is_bot agree with it (LatLaws = the C01-C03 statements); wf is the
+   executable forest check *)
+Theorem C04_uf_laws : LatLaws uf_ops /\ TopLaw uf_ops.
+Proof. exact (conj uf_laws uf_toplaw). Qed.
+Print Assumptions C04_uf_laws.
+
+Theorem C04_uf_wf_is_forest : forall s, wf uf_ops s = true <-> forest s /\ NoDup (keys s).
+Proof. exact uf_wf_spec. Qed.
+Print Assumptions C04_uf_wf_is_forest.
+
+Theorem C04_uf_order_is_refinement : forall a b, W uf_ops a -> W uf_ops b ->
+  (Le uf_ops a b <-> forall x y, SameRoot a x y -> SameRoot b x y).
+Proof. exact uf_le_refines. Qed.
+Print Assumptions C04_uf_order_is_refinement.
+
+(* pure cycles x0 -> x1 -> ... -> x0 of ANY length >= 2 (distinct items): not forests, yet find
+   terminates with any fuel > length (in particular the default |map|+1), elects the last item
+   of the cycle and points every member at it; all members are `same` *)
+Theorem C04_uf_pure_cycle : forall s x0 x1 r fuel,
+  NoDup (x0 :: x1 :: r) -> Chain s (x0 :: x1 :: r) x0 -> length (x0 :: x1 :: r) < fuel ->
+  let L := lst x1 r in
+  exists s', find fuel s x0 = Ok (L, s') /\ length s' = length s /\
+    (forall z, In z (x0 :: x1 :: r) -> get z s' = Some L) /\
+    (forall z, ~ In z (x0 :: x1 :: r) -> get z s' = get z s).
+Proof. exact find_pure_cycle. Qed.
+Print Assumptions C04_uf_pure_cycle.
+
+Theorem C04_uf_pure_cycle_same : forall s x0 x1 r z,
+  NoDup (x0 :: x1 :: r) -> Chain s (x0 :: x1 :: r) x0 -> In z (x0 :: x1 :: r) ->
+  exists s', same s x0 z = Ok (s', true).
+Proof. exact same_pure_cycle. Qed.
+Print Assumptions C04_uf_pure_cycle_same.
+
+(* the two maps of the repo's test_malformed, by computation (instances of the above; also:
+   such a map is not a forest) *)
 Theorem C04_uf_pure_cycle_partial :
   find (dfuel cycle3) cycle3 1 = Ok (3, [(1, 3); (2, 3); (3, 3)])%N /\
   find (dfuel cycle4) cycle4 1 = Ok (4, [(1, 4); (2, 4); (3, 4); (4, 4)])%N /\
